@@ -1,5 +1,5 @@
 (* Driver for the extracted C13 model.  Case format (one output line per input line):
-     C <query> <d> <k> r1 .. rd      header: query in R H K N S, reference point
+     C <query> <d> <k> r1 .. rd      header: query in R H G K N S, reference point (G = H, the harness then skips HOY)
      p x1 .. xd                      one point
      E                               evaluate the query on the points read so far
    Output on E:
@@ -56,7 +56,7 @@ let () =
            let r = rank_list s and f = fast_nds s in
            let dc = dc_nds s and fe = nds_front s in
            Printf.printf "R nds=%s fast=%s dc=%s spec=%s\n" (join snat fe) (join snat f) (join snat dc) (join snat r)
-         | "H" ->
+         | "H" | "G" ->
            let v = hv_spec !refp s in
            let a2 = if !d = 2 then sz (hv2d !refp s) else "-" in
            let a3 = if !d = 3 then sz (hv3d !refp s) else "-" in
